@@ -36,6 +36,8 @@ def obligations(tier):
                 continue
             obs.append(Ob(f"L1.cmpkey_agrees[pre {p1}/{p2}, release lengths {n1}/{n2}]", "c16.py", "cmpkey_agrees",
                           {"pre1": p1, "pre2": p2, "n1": n1, "n2": n2, "hi": hi}, timeout=t))
+    for i in range(8):
+        obs.append(Ob(f"L1b.text_order[pair {i}]", "c16.py", "text_order", {"pair": i}, timeout=t))
     obs.append(Ob("L2.letter_version", "c16.py", "letter_version", {}, timeout=t))
     shapes = []
     if tier == "quick":
